@@ -18,7 +18,9 @@ partial def parseTree (j : Json) : Except String Node := do
   let name ← if isNull nm then pure [] else chars nm
   -- "key": the dict key the element is stored under, when it differs from its name
   let kj := fldD j "key" Json.null
-  let key ← if isNull kj then pure name else chars kj
+  -- an unnamed element (`name: null`) is stored under the key `None` when its parent is a mapping (for
+  -- members of sequences and for the root the key is not used)
+  let key ← if isNull kj then pure (if isNull nm then none else some name) else (do pure (some (← chars kj)))
   let kids ← (← afld j "kids").mapM parseTree
   return .mk kind key name kids
 
